@@ -625,3 +625,71 @@ func ruleC06Host(c *Checker) {
 		c.check(usesPkgString || bad != "", R, p.FuncName(fn), "package text from ModulePackage.String", p.Pos(fn.Pos()), "the package is printed by ModulePackage.String, as the parser's counterpart", "the printer assembles the package text itself instead of using ModulePackage.String: the two printers of the same package can disagree")
 	}
 }
+
+
+// ---- C06.canonurl ----
+
+func ruleC06CanonURL(c *Checker) {
+	const R = "C06.canonurl"
+	c.rule(R, "RemotePackage values are compared with == and used as map keys (the builder's directories and analysed set, the bundle's tables), and a manifest remembers a package as its string: so the url.URL stored in a RemotePackage must be a function of how it prints. At the single construction site the stored URL is the result of url.Parse applied to the String() of the URL that was handed in (url.URL carries RawPath/RawFragment detail that does not survive printing), and the construction is past the does-not-contain edge of a test of that URL's path for the sub-path separator \"//\".", 2)
+	p := c.P
+	urlv := p.FieldVar(addrPkg, "RemotePackage", "url")
+	if urlv == nil {
+		c.anchorMissing(R, "RemotePackage.url")
+		return
+	}
+	n := 0
+	for _, fn := range p.Funcs {
+		if !p.InModule(fn) {
+			continue
+		}
+		for _, st := range storesToField(fn, urlv) {
+			n++
+			name := p.FuncName(fn)
+			var parsed *ssa.Call
+			for w := range p.backSlice(st.Val, 0) {
+				cl, ok := w.(*ssa.Call)
+				if !ok || !isFunc(calleeObj(cl), "net/url", "Parse") {
+					continue
+				}
+				for x := range p.backSlice(cl.Call.Args[0], 0) {
+					if c2, ok := x.(*ssa.Call); ok && isMethod(calleeObj(c2), "net/url", "URL", "String") {
+						parsed = cl
+					}
+				}
+			}
+			okCanon := false
+			if parsed != nil {
+				// the stored value is a load through the parse result itself
+				if ld, ok := canon(st.Val).(*ssa.UnOp); ok && ld.Op == token.MUL {
+					if canon(ld.X) == extractOf(parsed, 0) {
+						okCanon = true
+					}
+				}
+			}
+			c.check(okCanon, R, name, "stored URL is canonical", p.Pos(st.Pos()), "the URL stored is *url.Parse(u.String())", "the url.URL stored in a RemotePackage is not the re-parsed print of the URL handed in: two packages that print the same can differ (RawPath), so a package is fetched twice, listed twice in the manifest and not found in the re-opened bundle")
+			// no "//" in the package's own path
+			_, notDbl := condEdges(fn, func(v ssa.Value) bool {
+				cl, ok := v.(*ssa.Call)
+				if !ok {
+					return false
+				}
+				sp, _, ok := searchCall(cl)
+				if !ok || sp != "//" {
+					return false
+				}
+				for x := range p.backSlice(cl.Call.Args[0], 0) {
+					if c2, ok := x.(*ssa.Call); ok && objPkgPath(calleeObj(c2)) == "net/url" {
+						return true
+					}
+					if fa, ok := x.(*ssa.FieldAddr); ok && isURLField(fa) {
+						return true
+					}
+				}
+				return false
+			})
+			c.check(guarded(st.Block(), notDbl), R, name, "package path has no //", p.Pos(st.Pos()), "constructed only past the test that the URL's path has no doubled slash", "a package whose own URL path contains \"//\" can be constructed: its string is read back as a shorter package with a sub-path (and a bundle built with it cannot be closed)")
+		}
+	}
+	c.check(n > 0, R, "-", "construction sites", "-", fmt.Sprintf("%d", n), "RemotePackage.url is never stored")
+}
